@@ -76,12 +76,12 @@ ENC = [
 TEXT = '$SYM[*][ @x = @y  @m.asbool ]'
 
 
-def build(text, quals, tracking=None):
+def build(text, quals, tracking=None, index=0):
     p, pr = fresh(text, [["h"], ["a"]])
     with NoTracing():
         p.matcher = Matcher(csvpath=p, data=p.match, line=["h"], headers=p.headers, myid="verif")
         p.matcher.AND = p.AND
-        eq = p.matcher.expressions[0][0].children[0]
+        eq = p.matcher.expressions[index][0].children[0]
         assert eq.op == "=" and eq.left.name == "x", eq
     qs = []
     if tracking:
@@ -374,6 +374,34 @@ def string_step(onmatch: bool, latch: bool, onchange: bool, notnone: bool, asboo
         p.variables["x"] = YS[cur]
     if yi >= 0:
         p.variables["y"] = YS[yi]
+    p.variables["m"] = m
+    p.track_line(["h"])
+    ret = p._consider_line(["h"])
+    return (p.variables.get("x"), ret)
+
+
+# ------------------------------------------------------------------ O4 the assignment between other onmatch components
+TEXT3 = '$SYM[*][ @a.onmatch.nocontrib = 1  @x = @y  push.onmatch("p", 1)  @m.asbool ]'
+
+
+@ob(
+    "C14",
+    "O4-among-onmatch-components",
+    pre=["cur is None or {LO} <= cur <= {HI}", "y is None or {LO} <= y <= {HI}", "not (increase and decrease)"],
+    post="_ == step_oracle(True, latch, onchange, increase, decrease, notnone, asbool, nocontrib, cur, y, m)",
+    bound="as O2-step, with the assignment placed between two other onmatch components (a neutral onmatch assignment before it, an "
+    "onmatch push after it) so that several look-aheads nest; x itself always carries onmatch",
+    outside="more than three onmatch components",
+    encodes=ENC,
+    tiers={"quick": {"timeout": 900, "K": {"LO": -1, "HI": 2}, "shards": product(latch=[False, True], onchange=[False, True], asbool=[False, True])}},
+)
+def among_onmatch(latch: bool, onchange: bool, increase: bool, decrease: bool, notnone: bool, asbool: bool, nocontrib: bool,
+                  cur: Optional[int], y: Optional[int], m: bool) -> Tuple[Optional[int], bool]:
+    p, pr, eq = build(TEXT3, [True, latch, onchange, increase, decrease, notnone, asbool, nocontrib], index=1)
+    if cur is not None:
+        p.variables["x"] = cur
+    if y is not None:
+        p.variables["y"] = y
     p.variables["m"] = m
     p.track_line(["h"])
     ret = p._consider_line(["h"])
